@@ -246,7 +246,7 @@ class Caption:
         return "".join(text_nodes).strip()
 
     def _format_timestamp(self, microseconds, msec_separator=None):
-        duration = timedelta(microseconds=microseconds)
+        duration = timedelta(microseconds=int(microseconds))
         hours, rem = divmod(duration.seconds, 3600)
         minutes, seconds = divmod(rem, 60)
         milliseconds = f"{duration.microseconds // 1000:03d}"
